@@ -136,6 +136,14 @@ func returnsOf(fn *ssa.Function) []*ssa.Return {
 // cyclic is true when a cycle is met before a stop (then the numbers are meaningless).
 // Paths ending in a panic are ignored unless nothing else exists.
 func pathCount(start *ssa.BasicBlock, startIdx int, stop func(*ssa.BasicBlock) bool, weight func(ssa.Instruction) int) (min, max int, cyclic bool, ends int) {
+	return pathCountX(start, startIdx, stop, weight, nil, nil)
+}
+
+// pathCountX is pathCount with two refinements: edge(b, k), when given, is a weight added on
+// the edge from b to its k-th successor (what a branch on a callee's result tells about what
+// the callee did), and paths ending in a Return for which skipRet holds are left out of the
+// numbers (the paths of one class of results are counted apart from the others).
+func pathCountX(start *ssa.BasicBlock, startIdx int, stop func(*ssa.BasicBlock) bool, weight func(ssa.Instruction) int, edge func(*ssa.BasicBlock, int) int, skipRet func(*ssa.Return) bool) (min, max int, cyclic bool, ends int) {
 	type res struct {
 		min, max int
 		ok       bool
@@ -165,18 +173,26 @@ func pathCount(start *ssa.BasicBlock, startIdx int, stop func(*ssa.BasicBlock) b
 		}
 		last := b.Instrs[len(b.Instrs)-1]
 		var r res
-		switch last.(type) {
+		switch last := last.(type) {
 		case *ssa.Return:
+			if skipRet != nil && skipRet(last) {
+				r = res{0, 0, false}
+				break
+			}
 			ends++
 			r = res{sum, sum, true}
 		case *ssa.Panic:
 			r = res{0, 0, false}
 		default:
 			r = res{0, 0, false}
-			for _, s := range b.Succs {
+			for k, s := range b.Succs {
 				sr := visit(s, 0, false)
 				if !sr.ok {
 					continue
+				}
+				if edge != nil {
+					w := edge(b, k)
+					sr.min, sr.max = sr.min+w, sr.max+w
 				}
 				if !r.ok {
 					r = res{sum + sr.min, sum + sr.max, true}
